@@ -23,6 +23,15 @@ static void *vmm_take(size_t size, int zero) {
 	g_allocs++;
 	g_last_size = size;
 	if (k >= VMM_MAXREQ || ((g_failmask >> k) & 1ULL)) { g_failed++; return NULL; }
+#ifdef VMM_MAXCONST
+	/* requests of up to VMM_MAXCONST bytes get a block whose size is a *constant* in each branch (heap objects of
+	 * symbolic size are very expensive in CBMC); the block still has exactly the requested size */
+	if (size >= 1 && size <= VMM_MAXCONST) {
+		size_t k_;
+		p = NULL;
+		for (k_ = 1; k_ <= VMM_MAXCONST; k_++) if (k_ == size) { p = zero ? calloc(1, k_) : malloc(k_); }
+	} else
+#endif
 	p = zero ? calloc(1, size) : malloc(size);
 #ifdef VREPLAY
 	if (!p) { g_failed++; return NULL; }
